@@ -39,6 +39,14 @@ def run(tier):
         if c == 0:
             k = sorted(runs)[5]
             rep.sample({"wtype": runs[k][0].get("wtype"), "steps": [{"who": s["who"], "argv": s["argv"], "reply": s["r"]} for s in runs[k][0]["steps"]]})
+    # the executor's own MULTI / EXEC / WATCH (the path the simulator and the Lua-free DST use)
+    tr = os.path.join(wd, "txn_executor.ndjson")
+    vlib.vh(["conn", "txn", "--level", "executor", "--seed", vlib.seed() * 100 + 77, "--n", 12000 if thorough else 2500, "--out", tr])
+    runs, bad = vlib.validate_runs(rep, "ConnTrace", "ConnTrace", tr, wd, "txn_executor", dev_cfgs=DEV, describe=describe, strip=("s",))
+    for evs in runs.values():
+        st = evs[0].get("steps", [])
+        if any(s["who"] == "B" for s in st[1:]) and any(s["c"]["op"] in ("EXEC", "DISCARD") for s in st):
+            nt += 1
     rep.cov["distinct_nontrivial"] = nt
     rep.cov["rule"] = ("a case is one transaction script of client A with client B's writes in the gaps, through two real "
                        "connection handlers; non-trivial = B wrote at least once and A reached EXEC or DISCARD")
